@@ -14,3 +14,7 @@ pub mod c02_float_conv;
 pub mod c06_ring_buffer;
 #[cfg(all(kani, feature = "c15"))]
 pub mod c15_types;
+#[cfg(all(kani, feature = "c03"))]
+pub mod c03_amp;
+#[cfg(all(kani, feature = "c10"))]
+pub mod c10_slice;
